@@ -267,6 +267,10 @@ def map(
         ymax = (datay + datadx).max().values
         zmin = (dataz - datadx).min().values
         zmax = (dataz + datadx).max().values
+        if thick:
+            # The depth range is given by the requested thickness, not by the data
+            zmin = -0.5 * dz.magnitude
+            zmax = zmin + dz.magnitude
         dx = (xmax - xmin) * datadx.unit
         dy = (ymax - ymin) * datadx.unit
 
